@@ -109,7 +109,15 @@ def fresh_like(I, st0, v, name, cands, path=()):
             cands.append(("seq_bound", lf, b))
         return VSeq(lf)
     if isinstance(v, VRec):
-        return VRec(v.ty, {k: fresh_like(I, st0, x, name, cands, path + (k,)) for k, x in v.f.items()})
+        import inv, lax_model
+        r = VRec(v.ty, {k: fresh_like(I, st0, x, name, cands, path + (k,)) for k, x in v.f.items()})
+        if v.ty == inv.LH:
+            lax_model.LIST_ELEM[r.f["adjacency"].t] = "hyperedge"
+            lax_model.LABEL_LEAVES.add(r.f["nodes"].t)
+            lax_model.LABEL_LEAVES.add(r.f["edges"].t)
+        if v.ty in (inv.LH, inv.LOH):
+            cands.append(("rec_inv", r, path, name))
+        return r
     if isinstance(v, VTup):
         return VTup([fresh_like(I, st0, x, name, cands, path + (str(i),)) for i, x in enumerate(v.items)])
     if isinstance(v, VBool):
@@ -117,6 +125,31 @@ def fresh_like(I, st0, v, name, cands, path=()):
     if isinstance(v, (VUser, VClosure, VFn, VUnit)):
         return v
     return VTop("loop-havoc " + str(nm))
+
+
+def rebuild(template, cur_of):
+    """The current value of a record whose fresh template is given (leaves looked up by cur_of)."""
+    if isinstance(template, VSeq):
+        return cur_of(template.t)
+    if isinstance(template, VNat):
+        return cur_of(template.p)
+    if isinstance(template, VRec):
+        d = {}
+        for k, x in template.f.items():
+            y = rebuild(x, cur_of)
+            if y is None:
+                return None
+            d[k] = y
+        return VRec(template.ty, d)
+    if isinstance(template, VTup):
+        items = []
+        for x in template.items:
+            y = rebuild(x, cur_of)
+            if y is None:
+                return None
+            items.append(y)
+        return VTup(items)
+    return template
 
 
 def collect_leaves(v, path=()):
@@ -161,11 +194,43 @@ def assume_cands(st, cands, subst_same):
                 st.add_bound(c[1], b)
         elif k == "sum_len":
             st.add_eq(t_sum(c[1]) - t_len(c[2]))
+        elif k == "len_eq":
+            st.add_eq(t_len(c[1]) - t_len(c[2]))
+        elif k == "rec_inv":
+            import inv
+            inv.assume_inv(None, st, c[1])
+        elif k == "elbound":
+            import lax_model
+            lax_model.LIST_ELEM[c[1]] = "hyperedge"
+            st.add_bound(("el", c[1], c[2]), c[3])
 
 
 def check_cand(st, c, cur_of):
     """Is candidate c re-established in end-of-body state st? cur_of: leaf/atom -> current value."""
     k = c[0]
+    if k == "rec_inv":
+        import inv
+        # locate the current record through one of its sequence leaves
+        lv = collect_leaves(c[1])
+        if not lv:
+            return False
+        cur_fields = {}
+        ok_all = True
+        curv = rebuild(c[1], cur_of)
+        if curv is None:
+            return False
+        for cc in inv.conditions(curv):
+            if cc[0] == "bound":
+                ok = prove_bound(st, cc[1], cc[2])
+            elif cc[0] == "eq":
+                ok = st.eq(cc[1], cc[2])
+            elif cc[0] == "elbound":
+                ok = inv.elems_bounded(st, cc[1], cc[2], cc[3])
+            else:
+                ok = st.ge(cc[1], cc[2])
+            if not ok:
+                return False
+        return True
     v = cur_of(c[1])
     if v is None:
         return False
@@ -182,6 +247,12 @@ def check_cand(st, c, cur_of):
     if k == "sum_len":
         w = cur_of(c[2])
         return isinstance(v, VSeq) and isinstance(w, VSeq) and st.eq(t_sum(v.t), t_len(w.t))
+    if k == "len_eq":
+        w = cur_of(c[2])
+        return isinstance(v, VSeq) and isinstance(w, VSeq) and st.eq(t_len(v.t), t_len(w.t))
+    if k == "elbound":
+        import inv
+        return isinstance(v, VSeq) and inv.elems_bounded(st, v.t, c[2], c[3])
     return False
 
 
@@ -220,6 +291,8 @@ def run_loop(I, st, fr, site, roots, run_body, what):
         for (fy, oy) in seqs:
             if fx is not fy and st.eq(t_sum(ox), t_len(oy)) and ox[0] in ("empty", "v", "concat") :
                 cands.append(("sum_len", fx, fy))
+            if fx is not fy and repr(fx) < repr(fy) and st.eq(t_len(ox), t_len(oy)):
+                cands.append(("len_eq", fx, fy))
 
     leaf_loc = {}
     for r, (place, v) in entry.items():
@@ -274,6 +347,21 @@ def run_loop(I, st, fr, site, roots, run_body, what):
                     ev = get_path(entry_value_of(entry, place), path)
                     if not isinstance(ev, VSeq):
                         continue
+                    # lists of hyperedges: bounds of the pushed elements' fields
+                    import lax_model, inv
+                    parts = curv.t[1:] if curv.t[0] == "concat" else (curv.t,)
+                    for part in parts:
+                        if part[0] == "single" and part[1][0] == "rec" and part[1][1] == inv.LEDGE:
+                            body = lax_model.thaw(part[1])
+                            for fld in ("sources", "targets"):
+                                for b in ubs(s, body.f[fld].t):
+                                    if any(mentions_loopvar(a) for a in b.atoms()):
+                                        continue
+                                    c = ("elbound", obj, fld, b)
+                                    if c in cands or c in extra:
+                                        continue
+                                    if inv.elems_bounded(st, ev.t, fld, b):
+                                        extra.append(c)
                     for b in ubs(s, curv.t):
                         if any(mentions_loopvar(a) for a in b.atoms()):
                             continue
@@ -333,6 +421,10 @@ def fmt_cand(c):
         return f"{k}: {show_poly(c[1])} vs {show_poly(c[2])}"
     if k in ("seq_len", "seq_bound"):
         return f"{k}: {show_term(c[1])} : {show_poly(c[2])}"
+    if k == "elbound":
+        return f"{k}: {show_term(c[1])}.{c[2]} < {show_poly(c[3])}"
+    if k == "rec_inv":
+        return f"rec_inv: {c[1].ty} at {'.'.join(c[2])}"
     return f"{k}: {show_term(c[1])} ~ {show_term(c[2])}"
 
 
